@@ -8,7 +8,7 @@ import traceback
 import common
 import scratch as sc
 
-VOCAB = ["", "a b", "\"q\"", "--x=1", "é", "$HOME", "*", "a\nb", "'s'", "\\n"]
+VOCAB = ["", "a b", "\"q\"", "--x=1", "é", "$HOME", "*", "a\nb", "'s'", "\\n", "features=x,y", "1,2,3", "a;b|c&d:e"]   # (separators of every common list syntax)
 KINDS = [None, "nocmd", "args"]
 
 
